@@ -34,7 +34,9 @@ pub(crate) fn fragment_event(event: &'static str, index: u32) {
 // Events: `[0, first block row, end block row, output byte offset of the line,
 // native bytes per pixel, channel conversion needed]` for a block line and
 // `[1, encoded byte offset, encoded byte length, width, width offset, output
-// byte offset]` for a call.
+// byte offset]` for a call, and `[2, encoded byte offset, encoded byte length,
+// output byte offset, output byte length, native bytes per pixel, channel
+// conversion needed]` for a call of a `ProcessPixelsFn` (uncompressed formats).
 
 thread_local! {
     static BLOCK_TRACE: std::cell::RefCell<Option<Vec<Vec<usize>>>> = const { std::cell::RefCell::new(None) };
